@@ -875,4 +875,895 @@ theorem classFns_eq (c : Class) (h : c.wf = true) : classFns c = c.funs := by
   · simp
   · simpa [keys] using funs_keys_nodup c h
 
+/-! ## the pure content of a `<package>` -/
+
+/-- what the package loop does with one class / source file, as the loops compute it -/
+def itemStep0 (m : List (Name × Cov)) : Item → List (Name × Cov)
+  | .cls c => addClass m c.file (classFns c)
+  | .src s => addSource m s.name (s.lines.foldl srcStep {})
+
+/-- the same with the declarative contents -/
+def itemStep (m : List (Name × Cov)) : Item → List (Name × Cov)
+  | .cls c => addClass m c.file c.funs
+  | .src s => addSource m s.name ⟨lineCov s.lines, branchCov s.lines⟩
+
+theorem cseg_fold (cls : Name) (body : List CSeg) : ∀ (fns : List (Name × Fn)),
+    body.foldl (CSeg.step cls) fns
+      = (body.filterMap CSeg.method?).foldl
+          (fun fns m => set fns (cls ++ cHash :: m.name) ⟨m.line, m.executed⟩) fns := by
+  induction body with
+  | nil => intro fns; rfl
+  | cons s body ih =>
+    intro fns
+    cases s with
+    | method m => simp [CSeg.method?, CSeg.step, ih, XMethod.abs]
+    | junk e => simp [List.filterMap_cons, CSeg.method?, CSeg.step, ih]
+
+theorem xclass_fns_eq (c : XClass) : c.fns = classFns c.abs := by
+  simp only [XClass.fns, classFns, cseg_fold, XClass.abs, Class.simple]
+
+theorem pseg_fold (body : List PSeg) : ∀ (m : List (Name × Cov)),
+    body.foldl PSeg.step m = (body.filterMap PSeg.item?).foldl itemStep0 m := by
+  induction body with
+  | nil => intro m; rfl
+  | cons s body ih =>
+    intro m
+    cases s with
+    | cls c => simp [PSeg.item?, PSeg.step, ih, itemStep0, xclass_fns_eq]
+    | src sf =>
+      simp [PSeg.item?, PSeg.step, ih, itemStep0, XSource.acc, XSource.abs]
+    | junk e => simp [List.filterMap_cons, PSeg.item?, PSeg.step, ih]
+
+theorem itemStep0_eq (m : List (Name × Cov)) (it : Item) (h : it.wf = true) :
+    itemStep0 m it = itemStep m it := by
+  cases it with
+  | cls c => simp only [itemStep0, itemStep, classFns_eq c h]
+  | src s => simp only [itemStep0, itemStep, srcAcc_eq s h]
+
+theorem itemStep0_fold (items : List Item) (h : ∀ it ∈ items, it.wf = true) :
+    ∀ m, items.foldl itemStep0 m = items.foldl itemStep m := by
+  induction items with
+  | nil => intro m; rfl
+  | cons it items ih =>
+    intro m
+    simp only [List.foldl_cons]
+    rw [itemStep0_eq m it (h it (List.mem_cons_self ..)),
+      ih (fun it hi => h it (List.mem_cons_of_mem _ hi))]
+
+theorem snoc_induction {α : Type} {P : List α → Prop} (nil : P [])
+    (snoc : ∀ l a, P l → P (l ++ [a])) : ∀ l, P l := by
+  have : ∀ l : List α, P l.reverse := by
+    intro l
+    induction l with
+    | nil => exact nil
+    | cons a l ih => rw [List.reverse_cons]; exact snoc _ _ ih
+  intro l
+  rw [← List.reverse_reverse l]; exact this _
+
+theorem fileNames_snoc (items : List Item) (it : Item) :
+    fileNames (items ++ [it])
+      = if it.file ∈ fileNames items then fileNames items else fileNames items ++ [it.file] := by
+  unfold fileNames; rw [List.foldl_append]; rfl
+
+theorem fileNames_nodup : ∀ (items : List Item), (fileNames items).Nodup := by
+  apply snoc_induction
+  · simp [fileNames]
+  · intro l a ih
+    rw [fileNames_snoc]
+    split
+    · exact ih
+    · rename_i h
+      rw [List.nodup_append]
+      refine ⟨ih, by simp, ?_⟩
+      intro x hx y hy e
+      simp at hy; subst hy; subst e; exact h hx
+
+theorem mem_fileNames : ∀ (items : List Item) (f : Name),
+    f ∈ fileNames items ↔ ∃ it ∈ items, it.file = f := by
+  apply snoc_induction
+  · intro f; simp [fileNames]
+  · intro l a ih f
+    rw [fileNames_snoc]
+    split
+    · rename_i h
+      rw [ih]
+      constructor
+      · rintro ⟨it, hm, e⟩; exact ⟨it, by simp [hm], e⟩
+      · rintro ⟨it, hm, e⟩
+        rcases List.mem_append.mp hm with hm | hm
+        · exact ⟨it, hm, e⟩
+        · simp at hm; subst hm; subst e; exact (ih _).mp h
+    · rw [List.mem_append, ih]
+      constructor
+      · rintro (⟨it, hm, e⟩ | h)
+        · exact ⟨it, by simp [hm], e⟩
+        · simp at h; exact ⟨a, by simp, h.symm⟩
+      · rintro ⟨it, hm, e⟩
+        rcases List.mem_append.mp hm with hm | hm
+        · exact Or.inl ⟨it, hm, e⟩
+        · simp at hm; subst hm; exact Or.inr (by simp [e])
+
+theorem funsFor_nil_of_not_mem (items : List Item) (f : Name) (h : f ∉ fileNames items) :
+    items.flatMap (Item.funsFor f) = [] := by
+  rw [List.flatMap_eq_nil_iff]
+  intro it hi
+  have hne : it.file ≠ f := fun e => h ((mem_fileNames _ _).mpr ⟨it, hi, e⟩)
+  cases it with
+  | cls c => simp only [Item.file] at hne; simp [Item.funsFor, hne]
+  | src s => rfl
+
+theorem srcFor_nil_of_not_mem_names (items : List Item) (f : Name)
+    (h : f ∉ items.filterMap Item.srcName?) : items.filterMap (Item.srcFor f) = [] := by
+  rw [List.filterMap_eq_nil_iff]
+  intro it hi
+  cases it with
+  | cls c => rfl
+  | src s =>
+    have hne : s.name ≠ f := by
+      intro e
+      apply h
+      rw [List.mem_filterMap]
+      exact ⟨.src s, hi, by simp [Item.srcName?, e]⟩
+    simp [Item.srcFor, hne]
+
+theorem srcNames_sub_fileNames (items : List Item) (f : Name)
+    (h : f ∈ items.filterMap Item.srcName?) : f ∈ fileNames items := by
+  rw [List.mem_filterMap] at h
+  obtain ⟨it, hi, e⟩ := h
+  cases it with
+  | cls c => simp [Item.srcName?] at e
+  | src s =>
+    simp only [Item.srcName?, Option.some.injEq] at e
+    exact (mem_fileNames _ _).mpr ⟨.src s, hi, by simp [Item.file, e]⟩
+
+/-- conditions of `Package.wf` that concern the list of items as a whole -/
+def ItemsOk (items : List Item) : Prop :=
+  (items.filterMap Item.srcName?).Nodup ∧
+  ∀ f ∈ fileNames items, ((items.flatMap (Item.funsFor f)).map (·.1)).Nodup
+
+theorem itemsOk_init (items : List Item) (it : Item) (h : ItemsOk (items ++ [it])) :
+    ItemsOk items := by
+  obtain ⟨h1, h2⟩ := h
+  constructor
+  · rw [List.filterMap_append] at h1
+    exact (List.nodup_append.mp h1).1
+  · intro f hf
+    have hf' : f ∈ fileNames (items ++ [it]) := by
+      rw [fileNames_snoc]; split
+      · exact hf
+      · exact List.mem_append_left _ hf
+    have := h2 f hf'
+    rw [List.flatMap_append, List.map_append] at this
+    exact (List.nodup_append.mp this).1
+
+theorem package_fold : ∀ (items : List Item), ItemsOk items →
+    items.foldl itemStep [] = (fileNames items).map fun f => (f, covFor items f) := by
+  apply snoc_induction
+  · intro _; rfl
+  · intro items it ih hok
+    have hinit := itemsOk_init items it hok
+    rw [List.foldl_append, ih hinit]
+    simp only [List.foldl_cons, List.foldl_nil]
+    have hnd := fileNames_nodup items
+    obtain ⟨hsrc, hfun⟩ := hok
+    cases it with
+    | cls c =>
+      have hlines : ∀ f, linesFor (items ++ [Item.cls c]) f = linesFor items f := by
+        intro f; simp [linesFor, List.filterMap_append, Item.srcFor]
+      by_cases hm : c.file ∈ fileNames items
+      · have hfn : fileNames (items ++ [Item.cls c]) = fileNames items := by
+          rw [fileNames_snoc]; simp [Item.file, hm]
+        rw [hfn]
+        have hnodup := hfun c.file (by rw [hfn]; exact hm)
+        simp only [itemStep, addClass, get?_mapmk, hm, if_true]
+        rw [set_mapmk _ _ _ _ hnd hm]
+        apply List.map_congr_left
+        intro f hf
+        by_cases e : f = c.file
+        · subst e
+          simp only [if_true, Prod.mk.injEq, true_and]
+          simp only [covFor, hlines]
+          congr 1
+          rw [setAll_append]
+          · simp [List.flatMap_append, Item.funsFor]
+          · simpa [keys, List.flatMap_append, Item.funsFor] using hnodup
+        · have e' : c.file ≠ f := fun h => e h.symm
+          simp only [e, if_false, Prod.mk.injEq, true_and]
+          simp [covFor, hlines, List.flatMap_append, Item.funsFor, e']
+      · have hfn : fileNames (items ++ [Item.cls c]) = fileNames items ++ [c.file] := by
+          rw [fileNames_snoc]; simp [Item.file, hm]
+        rw [hfn]
+        simp only [itemStep, addClass, get?_mapmk, hm, if_false]
+        rw [set_append_new _ _ _ (by rw [keys_mapmk]; exact hm), List.map_append]
+        congr 1
+        · apply List.map_congr_left
+          intro f hf
+          have e' : c.file ≠ f := fun h => hm (h ▸ hf)
+          simp [covFor, hlines, List.flatMap_append, Item.funsFor, e']
+        · have hno : items.filterMap (Item.srcFor c.file) = [] :=
+            srcFor_nil_of_not_mem_names _ _ (fun h => hm (srcNames_sub_fileNames _ _ h))
+          have hl : linesFor (items ++ [Item.cls c]) c.file = [] := by
+            rw [hlines]; unfold linesFor; rw [hno]; rfl
+          simp [covFor, hl, lineCov, branchCov, List.flatMap_append,
+            funsFor_nil_of_not_mem _ _ hm, Item.funsFor]
+    | src s =>
+      have hfuns : ∀ f, (items ++ [Item.src s]).flatMap (Item.funsFor f)
+          = items.flatMap (Item.funsFor f) := by
+        intro f; simp [List.flatMap_append, Item.funsFor]
+      have hnew : s.name ∉ items.filterMap Item.srcName? := by
+        intro h
+        rw [List.filterMap_append] at hsrc
+        exact (List.nodup_append.mp hsrc).2.2 _ h _ (by simp [Item.srcName?]) rfl
+      have hno := srcFor_nil_of_not_mem_names _ _ hnew
+      have hself : linesFor (items ++ [Item.src s]) s.name = s.lines := by
+        simp [linesFor, List.filterMap_append, hno, Item.srcFor]
+      have hother : ∀ f, f ≠ s.name → linesFor (items ++ [Item.src s]) f = linesFor items f := by
+        intro f hne
+        have : ¬ s.name = f := fun h => hne h.symm
+        simp [linesFor, List.filterMap_append, Item.srcFor, this]
+      by_cases hm : s.name ∈ fileNames items
+      · have hfn : fileNames (items ++ [Item.src s]) = fileNames items := by
+          rw [fileNames_snoc]; simp [Item.file, hm]
+        rw [hfn]
+        simp only [itemStep, addSource, get?_mapmk, hm, if_true]
+        rw [set_mapmk _ _ _ _ hnd hm]
+        apply List.map_congr_left
+        intro f hf
+        by_cases e : f = s.name
+        · subst e
+          simp [covFor, hself, hfuns]
+        · simp [e, covFor, hother f e, hfuns]
+      · have hfn : fileNames (items ++ [Item.src s]) = fileNames items ++ [s.name] := by
+          rw [fileNames_snoc]; simp [Item.file, hm]
+        rw [hfn]
+        simp only [itemStep, addSource, get?_mapmk, hm, if_false]
+        rw [set_append_new _ _ _ (by rw [keys_mapmk]; exact hm), List.map_append]
+        congr 1
+        · apply List.map_congr_left
+          intro f hf
+          have e : f ≠ s.name := fun h => hm (h ▸ hf)
+          simp [covFor, hother f e, hfuns]
+        · simp [covFor, hself, hfuns, funsFor_nil_of_not_mem _ _ hm]
+
+theorem xpackage_out_eq (p : XPackage) (h : p.abs.wf = true) : p.out = p.abs.sem := by
+  simp only [Package.wf, Bool.and_eq_true, List.all_eq_true, decide_eq_true_eq] at h
+  obtain ⟨⟨h1, h2⟩, h3⟩ := h
+  simp only [XPackage.out, Package.sem]
+  rw [pseg_fold]
+  change List.map _ (List.foldl itemStep0 [] p.abs.items) = _
+  rw [itemStep0_fold _ h1, package_fold _ ⟨h2, h3⟩, List.map_map]
+  rfl
+
+theorem report_out_eq (x : XReport) (h : Report.wf (abs x) = true) :
+    x.flatMap RSeg.out = sem (abs x) := by
+  induction x with
+  | nil => rfl
+  | cons s x ih =>
+    cases s with
+    | junk e =>
+      simp only [Spec.abs, List.filterMap_cons, RSeg.pkg?] at h ⊢
+      simp only [List.flatMap_cons, RSeg.out, List.nil_append]
+      exact ih h
+    | pkg p =>
+      simp only [Spec.abs, List.filterMap_cons, RSeg.pkg?, Report.wf, List.all_cons,
+        Bool.and_eq_true] at h ⊢
+      simp only [List.flatMap_cons, RSeg.out, sem]
+      rw [xpackage_out_eq p h.1]
+      congr 1
+      exact ih h.2
+
+/-- fidelity of the event-level parser, any sufficient fuel -/
+theorem parse_events (x : XReport) (h : wf x = true) (fuel : Nat)
+    (hf : fuel > (expand (events x)).length) : parse (events x) fuel = .ok (sem (abs x)) := by
+  simp only [wf, Bool.and_eq_true, List.all_eq_true] at h
+  unfold parse events
+  rw [report_body x h.1 fuel [] hf, report_out_eq x h.2]
+  simp
+
+theorem enoughFuel_gt (evs : List XmlEvent) : enoughFuel evs > (expand evs).length := by
+  have := length_expand_le evs
+  unfold enoughFuel; omega
+
+/-! ## termination on well-nested event sequences
+
+Invariant: the rest of the input closes the element stack `ns` (`balanced ns r`), and the local
+names the running loops wait for (innermost first) form a subsequence of the local names of `ns`.
+An inner loop may leave early (on an inner element of the same name), but never late: its own end
+tag is still ahead, so the end of the input is only ever read by the report loop. -/
+
+def Good {α : Type} (outer : List Name) (n : Nat) : Outcome (α × List XmlEvent) → Prop
+  | .ok (_, r') => ∃ ns', balanced ns' r' = true ∧ outer.Sublist (ns'.map localName) ∧ r'.length < n
+  | .err _ => True
+  | .diverge => False
+
+theorem Good.mono {α : Type} {outer : List Name} {n m : Nat} (h : n ≤ m) :
+    ∀ {o : Outcome (α × List XmlEvent)}, Good outer n o → Good outer m o
+  | .ok (_, _), ⟨ns', a, b, c⟩ => ⟨ns', a, b, by omega⟩
+  | .err _, _ => trivial
+  | .diverge, h => h
+
+theorem sublist_cons_of_ne {x y : Name} {l l' : List Name} (h : (x :: l).Sublist (y :: l'))
+    (hne : x ≠ y) : (x :: l).Sublist l' := by
+  cases h with
+  | cons _ h => exact h
+  | cons_cons _ h => exact absurd rfl hne
+
+theorem sublist_tail_of_cons {x y : Name} {l l' : List Name} (h : (x :: l).Sublist (y :: l')) :
+    l.Sublist l' := by
+  cases h with
+  | cons _ h => exact (List.sublist_cons_self x l).trans h
+  | cons_cons _ h => exact h
+
+theorem balanced_nil_stack {ns : List Name} (h : balanced ns [] = true) : ns = [] := by
+  cases ns <;> simp_all [balanced]
+
+theorem method_terminates (outer : List Name) : ∀ (fuel : Nat) (r : List XmlEvent) (ns : List Name)
+    (ex : Bool), balanced ns r = true → (sMethod :: outer).Sublist (ns.map localName) →
+    fuel > r.length → Good outer r.length (methodLoop fuel r ex) := by
+  intro fuel
+  induction fuel with
+  | zero => intro r _ _ _ _ hf; omega
+  | succ fuel ih =>
+    intro r ns ex hb hs hf
+    cases r with
+    | nil => rw [balanced_nil_stack hb] at hs; cases hs
+    | cons e r =>
+      simp only [List.length_cons] at hf ⊢
+      have hf' : fuel > r.length := by omega
+      cases e with
+      | start n a =>
+        simp only [balanced] at hb
+        have hs' : (sMethod :: outer).Sublist ((n :: ns).map localName) := List.Sublist.cons _ hs
+        have cont := fun ex' => Good.mono (Nat.le_succ _) (ih r (n :: ns) ex' hb hs' hf')
+        simp only [methodLoop]
+        repeat' split
+        all_goals first | exact cont _ | trivial
+      | end_ n =>
+        cases ns with
+        | nil => simp [balanced] at hb
+        | cons m ns =>
+          simp only [balanced, Bool.and_eq_true, decide_eq_true_eq] at hb
+          obtain ⟨rfl, hb⟩ := hb
+          simp only [methodLoop]
+          split
+          · exact ⟨ns, hb, sublist_tail_of_cons hs, by omega⟩
+          · rename_i hne
+            exact Good.mono (Nat.le_succ _)
+              (ih r ns ex hb (sublist_cons_of_ne hs (fun e => hne e.symm)) hf')
+      | empty n a =>
+        simp only [balanced] at hb
+        simp only [methodLoop]
+        exact Good.mono (Nat.le_succ _) (ih r ns ex hb hs hf')
+      | text =>
+        simp only [balanced] at hb
+        simp only [methodLoop]
+        exact Good.mono (Nat.le_succ _) (ih r ns ex hb hs hf')
+      | other =>
+        simp only [balanced] at hb
+        simp only [methodLoop]
+        exact Good.mono (Nat.le_succ _) (ih r ns ex hb hs hf')
+      | bad => simp [balanced] at hb
+
+theorem sourcefile_terminates (outer : List Name) : ∀ (fuel : Nat) (r : List XmlEvent)
+    (ns : List Name) (acc : SrcAcc), balanced ns r = true →
+    (sSourcefile :: outer).Sublist (ns.map localName) →
+    fuel > r.length → Good outer r.length (sourcefileLoop fuel r acc) := by
+  intro fuel
+  induction fuel with
+  | zero => intro r _ _ _ _ hf; omega
+  | succ fuel ih =>
+    intro r ns acc hb hs hf
+    cases r with
+    | nil => rw [balanced_nil_stack hb] at hs; cases hs
+    | cons e r =>
+      simp only [List.length_cons] at hf ⊢
+      have hf' : fuel > r.length := by omega
+      cases e with
+      | start n a =>
+        simp only [balanced] at hb
+        have hs' : (sSourcefile :: outer).Sublist ((n :: ns).map localName) :=
+          List.Sublist.cons _ hs
+        have cont := fun acc' => Good.mono (Nat.le_succ _) (ih r (n :: ns) acc' hb hs' hf')
+        simp only [sourcefileLoop]
+        repeat' split
+        all_goals first | exact cont _ | trivial
+      | end_ n =>
+        cases ns with
+        | nil => simp [balanced] at hb
+        | cons m ns =>
+          simp only [balanced, Bool.and_eq_true, decide_eq_true_eq] at hb
+          obtain ⟨rfl, hb⟩ := hb
+          simp only [sourcefileLoop]
+          split
+          · exact ⟨ns, hb, sublist_tail_of_cons hs, by omega⟩
+          · rename_i hne
+            exact Good.mono (Nat.le_succ _)
+              (ih r ns acc hb (sublist_cons_of_ne hs (fun e => hne e.symm)) hf')
+      | empty n a =>
+        simp only [balanced] at hb
+        simp only [sourcefileLoop]
+        exact Good.mono (Nat.le_succ _) (ih r ns acc hb hs hf')
+      | text =>
+        simp only [balanced] at hb
+        simp only [sourcefileLoop]
+        exact Good.mono (Nat.le_succ _) (ih r ns acc hb hs hf')
+      | other =>
+        simp only [balanced] at hb
+        simp only [sourcefileLoop]
+        exact Good.mono (Nat.le_succ _) (ih r ns acc hb hs hf')
+      | bad => simp [balanced] at hb
+
+theorem class_terminates (cls : Name) (outer : List Name) : ∀ (fuel : Nat) (r : List XmlEvent)
+    (ns : List Name) (fns : List (Name × Fn)), balanced ns r = true →
+    (sClass :: outer).Sublist (ns.map localName) →
+    fuel > r.length → Good outer r.length (classLoop cls fuel r fns) := by
+  intro fuel
+  induction fuel with
+  | zero => intro r _ _ _ _ hf; omega
+  | succ fuel ih =>
+    intro r ns fns hb hs hf
+    cases r with
+    | nil => rw [balanced_nil_stack hb] at hs; cases hs
+    | cons e r =>
+      simp only [List.length_cons] at hf ⊢
+      have hf' : fuel > r.length := by omega
+      cases e with
+      | start n a =>
+        simp only [balanced] at hb
+        have hs' : (sClass :: outer).Sublist ((n :: ns).map localName) := List.Sublist.cons _ hs
+        have cont := fun fns' => Good.mono (Nat.le_succ _) (ih r (n :: ns) fns' hb hs' hf')
+        simp only [classLoop]
+        by_cases hn : localName n = sMethod
+        · have hs2 : (sMethod :: sClass :: outer).Sublist ((n :: ns).map localName) := by
+            simp only [List.map_cons, hn]; exact List.Sublist.cons_cons _ hs
+          have hM := method_terminates (sClass :: outer) fuel r (n :: ns) false hb hs2 hf'
+          simp only [hn, if_true]
+          split
+          · split
+            · split
+              · cases hml : methodLoop fuel r false with
+                | ok p =>
+                  obtain ⟨ex, r'⟩ := p
+                  rw [hml] at hM
+                  obtain ⟨ns', hb', hs'', hl⟩ := hM
+                  simp only
+                  exact Good.mono (by omega) (ih r' ns' _ hb' hs'' (by omega))
+                | err k => trivial
+                | diverge => rw [hml] at hM; exact hM.elim
+              · trivial
+            · trivial
+          · trivial
+        · simp only [hn, if_false]; exact cont _
+      | end_ n =>
+        cases ns with
+        | nil => simp [balanced] at hb
+        | cons m ns =>
+          simp only [balanced, Bool.and_eq_true, decide_eq_true_eq] at hb
+          obtain ⟨rfl, hb⟩ := hb
+          simp only [classLoop]
+          split
+          · exact ⟨ns, hb, sublist_tail_of_cons hs, by omega⟩
+          · rename_i hne
+            exact Good.mono (Nat.le_succ _)
+              (ih r ns fns hb (sublist_cons_of_ne hs (fun e => hne e.symm)) hf')
+      | empty n a =>
+        simp only [balanced] at hb
+        simp only [classLoop]
+        exact Good.mono (Nat.le_succ _) (ih r ns fns hb hs hf')
+      | text =>
+        simp only [balanced] at hb
+        simp only [classLoop]
+        exact Good.mono (Nat.le_succ _) (ih r ns fns hb hs hf')
+      | other =>
+        simp only [balanced] at hb
+        simp only [classLoop]
+        exact Good.mono (Nat.le_succ _) (ih r ns fns hb hs hf')
+      | bad => simp [balanced] at hb
+
+theorem package_terminates (pkg : Name) (outer : List Name) : ∀ (fuel : Nat) (r : List XmlEvent)
+    (ns : List Name) (m : List (Name × Cov)), balanced ns r = true →
+    (sPackage :: outer).Sublist (ns.map localName) →
+    fuel > r.length → Good outer r.length (packageLoop pkg fuel r m) := by
+  intro fuel
+  induction fuel with
+  | zero => intro r _ _ _ _ hf; omega
+  | succ fuel ih =>
+    intro r ns m hb hs hf
+    cases r with
+    | nil => rw [balanced_nil_stack hb] at hs; cases hs
+    | cons e r =>
+      simp only [List.length_cons] at hf ⊢
+      have hf' : fuel > r.length := by omega
+      cases e with
+      | start n a =>
+        simp only [balanced] at hb
+        have hs' : (sPackage :: outer).Sublist ((n :: ns).map localName) := List.Sublist.cons _ hs
+        have cont := fun m' => Good.mono (Nat.le_succ _) (ih r (n :: ns) m' hb hs' hf')
+        simp only [packageLoop]
+        by_cases hn : localName n = sClass
+        · have hs2 : (sClass :: sPackage :: outer).Sublist ((n :: ns).map localName) := by
+            simp only [List.map_cons, hn]; exact List.Sublist.cons_cons _ hs
+          simp only [hn, if_true]
+          split
+          · rename_i fq _
+            have hC := class_terminates (afterLast cSlash fq) (sPackage :: outer) fuel r (n :: ns)
+              [] hb hs2 hf'
+            cases hcl : classLoop (afterLast cSlash fq) fuel r [] with
+            | ok p =>
+              obtain ⟨fns, r'⟩ := p
+              rw [hcl] at hC
+              obtain ⟨ns', hb', hs'', hl⟩ := hC
+              simp only
+              exact Good.mono (by omega) (ih r' ns' _ hb' hs'' (by omega))
+            | err k => trivial
+            | diverge => rw [hcl] at hC; exact hC.elim
+          · trivial
+        · simp only [hn, if_false]
+          by_cases hn2 : localName n = sSourcefile
+          · have hs2 : (sSourcefile :: sPackage :: outer).Sublist ((n :: ns).map localName) := by
+              simp only [List.map_cons, hn2]; exact List.Sublist.cons_cons _ hs
+            have hS := sourcefile_terminates (sPackage :: outer) fuel r (n :: ns) {} hb hs2 hf'
+            simp only [hn2, if_true]
+            split
+            · cases hsl : sourcefileLoop fuel r {} with
+              | ok p =>
+                obtain ⟨sa, r'⟩ := p
+                rw [hsl] at hS
+                obtain ⟨ns', hb', hs'', hl⟩ := hS
+                simp only
+                exact Good.mono (by omega) (ih r' ns' _ hb' hs'' (by omega))
+              | err k => trivial
+              | diverge => rw [hsl] at hS; exact hS.elim
+            · trivial
+          · simp only [hn2, if_false]; exact cont _
+      | end_ n =>
+        cases ns with
+        | nil => simp [balanced] at hb
+        | cons m' ns =>
+          simp only [balanced, Bool.and_eq_true, decide_eq_true_eq] at hb
+          obtain ⟨rfl, hb⟩ := hb
+          simp only [packageLoop]
+          split
+          · exact ⟨ns, hb, sublist_tail_of_cons hs, by omega⟩
+          · rename_i hne
+            exact Good.mono (Nat.le_succ _)
+              (ih r ns m hb (sublist_cons_of_ne hs (fun e => hne e.symm)) hf')
+      | empty n a =>
+        simp only [balanced] at hb
+        simp only [packageLoop]
+        exact Good.mono (Nat.le_succ _) (ih r ns m hb hs hf')
+      | text =>
+        simp only [balanced] at hb
+        simp only [packageLoop]
+        exact Good.mono (Nat.le_succ _) (ih r ns m hb hs hf')
+      | other =>
+        simp only [balanced] at hb
+        simp only [packageLoop]
+        exact Good.mono (Nat.le_succ _) (ih r ns m hb hs hf')
+      | bad => simp [balanced] at hb
+
+theorem report_terminates : ∀ (fuel : Nat) (r : List XmlEvent) (ns : List Name)
+    (res : List (Name × Cov)), balanced ns r = true → fuel > r.length →
+    reportLoop fuel r res ≠ .diverge := by
+  intro fuel
+  induction fuel with
+  | zero => intro r _ _ _ hf; omega
+  | succ fuel ih =>
+    intro r ns res hb hf
+    cases r with
+    | nil => simp [reportLoop]
+    | cons e r =>
+      simp only [List.length_cons] at hf
+      have hf' : fuel > r.length := by omega
+      cases e with
+      | start n a =>
+        simp only [balanced] at hb
+        simp only [reportLoop]
+        by_cases hn : localName n = sPackage
+        · have hs2 : (sPackage :: []).Sublist ((n :: ns).map localName) := by
+            simp only [List.map_cons, hn]; exact List.Sublist.cons_cons _ (List.nil_sublist _)
+          simp only [hn, if_true]
+          split
+          · rename_i pkg _
+            have hP := package_terminates pkg [] fuel r (n :: ns) [] hb hs2 hf'
+            cases hpl : packageLoop pkg fuel r [] with
+            | ok p =>
+              obtain ⟨pr, r'⟩ := p
+              rw [hpl] at hP
+              obtain ⟨ns', hb', _, hl⟩ := hP
+              simp only
+              exact ih r' ns' _ hb' (by omega)
+            | err k => simp
+            | diverge => rw [hpl] at hP; exact hP.elim
+          · simp
+        · simp only [hn, if_false]; exact ih r (n :: ns) res hb hf'
+      | end_ n =>
+        cases ns with
+        | nil => simp [balanced] at hb
+        | cons m' ns =>
+          simp only [balanced, Bool.and_eq_true, decide_eq_true_eq] at hb
+          simp only [reportLoop]
+          exact ih r ns res hb.2 hf'
+      | empty n a =>
+        simp only [balanced] at hb
+        simp only [reportLoop]
+        exact ih r ns res hb hf'
+      | text =>
+        simp only [balanced] at hb
+        simp only [reportLoop]
+        exact ih r ns res hb hf'
+      | other =>
+        simp only [balanced] at hb
+        simp only [reportLoop]
+        exact ih r ns res hb hf'
+      | bad => simp [balanced] at hb
+
+theorem balanced_expand (evs : List XmlEvent) : ∀ ns, balanced ns (expand evs) = balanced ns evs := by
+  induction evs with
+  | nil => intro ns; rfl
+  | cons e evs ih =>
+    intro ns
+    cases e with
+    | empty n a => simp [expand, balanced, ih]
+    | start n a => simp [expand, balanced, ih]
+    | end_ n => cases ns <;> simp [expand, balanced, ih]
+    | text => simp [expand, balanced, ih]
+    | other => simp [expand, balanced, ih]
+    | bad => simp [expand, balanced]
+
+/-- on a well-nested event sequence the parser returns (a result or an error) -/
+theorem parse_terminates (evs : List XmlEvent) (h : WellNested evs) (fuel : Nat)
+    (hf : fuel ≥ enoughFuel evs) : parse evs fuel ≠ .diverge := by
+  unfold parse
+  apply report_terminates fuel (expand evs) [] []
+  · rw [balanced_expand]; exact h
+  · have := enoughFuel_gt evs; omega
+
+/-! ## end of input inside a nested element: the loop never returns -/
+
+theorem sourcefileLoop_eof (fuel : Nat) (acc : SrcAcc) : sourcefileLoop fuel [] acc = .diverge := by
+  induction fuel with
+  | zero => rfl
+  | succ f ih => simpa [sourcefileLoop] using ih
+
+theorem methodLoop_eof (fuel : Nat) (ex : Bool) : methodLoop fuel [] ex = .diverge := by
+  induction fuel with
+  | zero => rfl
+  | succ f ih => simpa [methodLoop] using ih
+
+theorem classLoop_eof (cls : Name) (fuel : Nat) (fns : List (Name × Fn)) :
+    classLoop cls fuel [] fns = .diverge := by
+  induction fuel with
+  | zero => rfl
+  | succ f ih => simpa [classLoop] using ih
+
+theorem packageLoop_eof (pkg : Name) (fuel : Nat) (m : List (Name × Cov)) :
+    packageLoop pkg fuel [] m = .diverge := by
+  induction fuel with
+  | zero => rfl
+  | succ f ih => simpa [packageLoop] using ih
+
+/-! ## canonical renderers are read back -/
+
+theorem unescapeGo_escape (s : Name) : unescapeGo none (escape s) = some s := by
+  induction s with
+  | nil => rfl
+  | cons c r ih =>
+    unfold escape
+    by_cases h1 : c = 60
+    · subst h1; simp [unescapeGo, resolveEntity, ih]
+    · by_cases h2 : c = 62
+      · subst h2; simp [unescapeGo, resolveEntity, ih]
+      · by_cases h3 : c = 38
+        · subst h3; simp [unescapeGo, resolveEntity, ih]
+        · by_cases h4 : c = 39
+          · subst h4; simp [unescapeGo, resolveEntity, ih]
+          · by_cases h5 : c = 34
+            · subst h5; simp [unescapeGo, resolveEntity, ih]
+            · simp [h1, h2, h3, h4, h5, unescapeGo, ih]
+
+theorem unescape_escape (s : Name) : unescape (escape s) = some s := unescapeGo_escape s
+
+theorem parseDigits_append (b : Nat) (xs ys : List Nat) : ∀ acc,
+    parseDigits b acc (xs ++ ys) = (parseDigits b acc xs).bind fun a => parseDigits b a ys := by
+  induction xs with
+  | nil => intro acc; rfl
+  | cons d xs ih =>
+    intro acc
+    simp only [List.cons_append, parseDigits]
+    split
+    · split
+      · exact ih _
+      · rfl
+    · rfl
+
+theorem parseDigits_decimalAux (b : Nat) : ∀ (fuel n : Nat), n ≤ fuel → n ≤ b →
+    parseDigits b 0 (decimalAux fuel n) = some n := by
+  intro fuel
+  induction fuel with
+  | zero =>
+    intro n h hb
+    have : n = 0 := by omega
+    subst this
+    simp [decimalAux, parseDigits, isDigit]
+  | succ fuel ih =>
+    intro n h hb
+    unfold decimalAux
+    split
+    · rename_i hlt
+      have e : 48 + n - 48 = n := by omega
+      simp only [parseDigits, isDigit, Nat.zero_mul, Nat.zero_add, e]
+      simp [hb]
+      omega
+    · rename_i hge
+      rw [parseDigits_append, ih (n / 10) (by omega) (by omega)]
+      have e : 48 + n % 10 - 48 = n % 10 := by omega
+      have hv : n / 10 * 10 + n % 10 = n := by omega
+      simp [parseDigits, isDigit, e, hv, hb]
+      omega
+
+theorem decimalAux_head (fuel n : Nat) :
+    ∃ d ds, decimalAux fuel n = d :: ds ∧ 48 ≤ d := by
+  induction fuel generalizing n with
+  | zero => exact ⟨_, _, rfl, by omega⟩
+  | succ fuel ih =>
+    unfold decimalAux
+    split
+    · exact ⟨_, _, rfl, by omega⟩
+    · obtain ⟨d, ds, e, h⟩ := ih (n / 10)
+      exact ⟨d, ds ++ [48 + n % 10], by rw [e]; rfl, h⟩
+
+/-- the plain decimal numeral of `n` is read back as `n` -/
+theorem parseUnsigned_decimal (b n : Nat) (h : n ≤ b) : parseUnsigned b (decimal n) = some n := by
+  have hp := parseDigits_decimalAux b n n (Nat.le_refl _) h
+  obtain ⟨d, ds, e, hd⟩ := decimalAux_head n n
+  unfold decimal
+  rw [e] at hp ⊢
+  unfold parseUnsigned
+  split
+  · rename_i heq; cases heq
+  · rename_i r heq
+    have : d = 43 := by injection heq
+    omega
+  · exact hp
+
+/-! ## class-name helpers -/
+
+theorem afterLast_fold (sep : Nat) (t : Name) (h : sep ∉ t) : ∀ acc : Name,
+    t.foldl (fun acc c => if c = sep then [] else acc ++ [c]) acc = acc ++ t := by
+  induction t with
+  | nil => intro acc; simp
+  | cons c t ih =>
+    intro acc
+    simp only [List.mem_cons, not_or] at h
+    have hc : ¬ c = sep := fun e => h.1 e.symm
+    simp only [List.foldl_cons, hc, if_false]
+    rw [ih h.2]; simp
+
+theorem afterLast_no_sep (sep : Nat) (s : Name) (h : sep ∉ s) : afterLast sep s = s := by
+  unfold afterLast; rw [afterLast_fold sep s h]; rfl
+
+theorem afterLast_append (sep : Nat) (p t : Name) (h : sep ∉ t) :
+    afterLast sep (p ++ sep :: t) = t := by
+  unfold afterLast
+  rw [List.foldl_append, List.foldl_cons]
+  simp only [if_true]
+  rw [afterLast_fold sep t h]; rfl
+
+theorem beforeFirst_no_sep (sep : Nat) (s : Name) (h : sep ∉ s) : beforeFirst sep s = s := by
+  unfold beforeFirst
+  induction s with
+  | nil => rfl
+  | cons c s ih =>
+    simp only [List.mem_cons, not_or] at h
+    have hc : ¬ c = sep := fun e => h.1 e.symm
+    rw [List.takeWhile_cons]
+    simp only [ne_eq, hc, not_false_eq_true, decide_true, if_true]
+    rw [ih h.2]
+
+theorem beforeFirst_append (sep : Nat) (p t : Name) (h : sep ∉ p) :
+    beforeFirst sep (p ++ sep :: t) = p := by
+  unfold beforeFirst
+  induction p with
+  | nil => simp
+  | cons c p ih =>
+    simp only [List.mem_cons, not_or] at h
+    have hc : ¬ c = sep := fun e => h.1 e.symm
+    rw [List.cons_append, List.takeWhile_cons]
+    simp only [ne_eq, hc, not_false_eq_true, decide_true, if_true]
+    rw [ih h.2]
+
+/-! ## is_jacoco -/
+
+theorem isJacoco_short (bs : List Nat) (h : bs.length < 256) : isJacoco bs = false := by
+  simp [isJacoco, h]
+
+theorem isJacoco_take (bs : List Nat) (h : 256 ≤ bs.length) :
+    isJacoco bs = isJacoco (bs.take 256) := by
+  have h1 : ¬ bs.length < 256 := by omega
+  have h2 : ¬ (bs.take 256).length < 256 := by simp; omega
+  simp only [isJacoco, h1, h2, if_false, List.take_take, Nat.min_self]
+
+/-! ## closed examples used by Props/C10.lean -/
+
+/-- a noisy serialisation: declaration, doctype, `<report>`, session info, a `<group>` wrapper,
+counters of other types, text, shuffled and extra attributes, `&lt;init&gt;`, `&#53;`, `+1`, `005`,
+a prefixed `j:line`, the source file before its classes, a class without `sourcefilename` -/
+def exNoisy : XReport :=
+  [.junk (.other),
+   .junk (.other),
+   .junk (.start [114, 101, 112, 111, 114, 116] [([110, 97, 109, 101], [100, 101, 109, 111])]),
+   .junk (.empty [115, 101, 115, 115, 105, 111, 110, 105, 110, 102, 111] [([105, 100], [104, 45, 49]), ([115, 116, 97, 114, 116], [49]), ([100, 117, 109, 112], [50])]),
+   .junk (.start [103, 114, 111, 117, 112] [([110, 97, 109, 101], [103])]),
+   .pkg { name := [111, 114, 103, 47, 101, 120], tag := [112, 97, 99, 107, 97, 103, 101], attrs := [([110, 97, 109, 101], [111, 114, 103, 47, 101, 120])], selfClose := false,
+    body := [.src { name := [80, 101, 114, 115, 111, 110, 46, 106, 97, 118, 97], tag := [115, 111, 117, 114, 99, 101, 102, 105, 108, 101], attrs := [([110, 97, 109, 101], [80, 101, 114, 115, 111, 110, 46, 106, 97, 118, 97])], selfClose := false,
+      body := [.junk (.text),
+         .line ⟨3, 0, 2, 0, 0⟩ [108, 105, 110, 101] [([110, 114], [51]), ([109, 105], [48]), ([99, 105], [50]), ([109, 98], [48]), ([99, 98], [48])] true,
+         .junk (.text),
+         .line ⟨5, 1, 4, 1, 2⟩ [106, 58, 108, 105, 110, 101] [([99, 98], [50]), ([109, 98], [43, 49]), ([120], [121]), ([99, 105], [52]), ([109, 105], [49]), ([110, 114], [48, 48, 53])] false,
+         .line ⟨9, 3, 0, 0, 0⟩ [108, 105, 110, 101] [([99, 105], [48]), ([110, 114], [57]), ([99, 98], [48]), ([109, 98], [48, 48])] true,
+         .junk (.empty [99, 111, 117, 110, 116, 101, 114] [([116, 121, 112, 101], [76, 73, 78, 69]), ([109, 105, 115, 115, 101, 100], [49]), ([99, 111, 118, 101, 114, 101, 100], [50])]),
+         .junk (.other)] },
+       .junk (.text),
+       .cls { fq := [111, 114, 103, 47, 101, 120, 47, 80, 101, 114, 115, 111, 110, 36, 65, 103, 101], sourcefile := some [80, 101, 114, 115, 111, 110, 46, 106, 97, 118, 97], tag := [99, 108, 97, 115, 115], selfClose := false,
+      attrs := [([115, 111, 117, 114, 99, 101, 102, 105, 108, 101, 110, 97, 109, 101], [80, 101, 114, 115, 111, 110, 46, 106, 97, 118, 97]), ([110, 97, 109, 101], [111, 114, 103, 47, 101, 120, 47, 80, 101, 114, 115, 111, 110, 36, 65, 103, 101])],
+      body := [.junk (.text),
+         .method { name := [60, 105, 110, 105, 116, 62], line := 3, tag := [109, 101, 116, 104, 111, 100], selfClose := false,
+          attrs := [([100, 101, 115, 99], [40, 41, 86]), ([108, 105, 110, 101], [51]), ([110, 97, 109, 101], [38, 108, 116, 59, 105, 110, 105, 116, 38, 103, 116, 59])],
+          body := [.otherCounter [73, 78, 83, 84, 82, 85, 67, 84, 73, 79, 78] [99, 111, 117, 110, 116, 101, 114] [([116, 121, 112, 101], [73, 78, 83, 84, 82, 85, 67, 84, 73, 79, 78]), ([109, 105, 115, 115, 101, 100], [48]), ([99, 111, 118, 101, 114, 101, 100], [52])] true,
+             .junk (.text),
+             .counter 1 [99, 111, 117, 110, 116, 101, 114] [([99, 111, 118, 101, 114, 101, 100], [49]), ([109, 105, 115, 115, 101, 100], [48]), ([116, 121, 112, 101], [77, 69, 84, 72, 79, 68])] false] },
+         .method { name := [103, 101, 116], line := 5, tag := [109, 101, 116, 104, 111, 100], selfClose := false,
+          attrs := [([110, 97, 109, 101], [103, 101, 116]), ([108, 105, 110, 101], [38, 35, 53, 51, 59])],
+          body := [.counter 0 [99, 111, 117, 110, 116, 101, 114] [([116, 121, 112, 101], [77, 69, 84, 72, 79, 68]), ([109, 105, 115, 115, 101, 100], [49]), ([99, 111, 118, 101, 114, 101, 100], [48])] true] },
+         .junk (.empty [99, 111, 117, 110, 116, 101, 114] [([116, 121, 112, 101], [77, 69, 84, 72, 79, 68]), ([109, 105, 115, 115, 101, 100], [49]), ([99, 111, 118, 101, 114, 101, 100], [49])])] },
+       .cls { fq := [111, 114, 103, 47, 101, 120, 47, 80, 101, 114, 115, 111, 110], sourcefile := none, tag := [99, 108, 97, 115, 115], selfClose := false,
+      attrs := [([110, 97, 109, 101], [111, 114, 103, 47, 101, 120, 47, 80, 101, 114, 115, 111, 110])],
+      body := [.method { name := [109, 97, 105, 110], line := 9, tag := [109, 101, 116, 104, 111, 100], selfClose := true,
+          attrs := [([110, 97, 109, 101], [109, 97, 105, 110]), ([100, 101, 115, 99], [40, 91, 76, 106, 97, 118, 97, 47, 108, 97, 110, 103, 47, 83, 116, 114, 105, 110, 103, 59, 41, 86]), ([108, 105, 110, 101], [57])], body := [] }] },
+       .junk (.empty [99, 111, 117, 110, 116, 101, 114] [([116, 121, 112, 101], [67, 76, 65, 83, 83]), ([109, 105, 115, 115, 101, 100], [48]), ([99, 111, 118, 101, 114, 101, 100], [50])])] },
+   .junk (.end_ [103, 114, 111, 117, 112]),
+   .junk (.text),
+   .pkg { name := [], tag := [112, 97, 99, 107, 97, 103, 101], attrs := [([110, 97, 109, 101], [])], selfClose := false,
+    body := [.src { name := [84, 46, 106, 97, 118, 97], tag := [115, 111, 117, 114, 99, 101, 102, 105, 108, 101], attrs := [([110, 97, 109, 101], [84, 46, 106, 97, 118, 97])], selfClose := true, body := [] }] },
+   .junk (.empty [99, 111, 117, 110, 116, 101, 114] [([116, 121, 112, 101], [73, 78, 83, 84, 82, 85, 67, 84, 73, 79, 78]), ([109, 105, 115, 115, 101, 100], [51]), ([99, 111, 118, 101, 114, 101, 100], [57])]),
+   .junk (.end_ [114, 101, 112, 111, 114, 116])]
+
+/-- the plain serialisation of the same report -/
+def exPlain : XReport :=
+  [.pkg { name := [111, 114, 103, 47, 101, 120], tag := [112, 97, 99, 107, 97, 103, 101], attrs := [([110, 97, 109, 101], [111, 114, 103, 47, 101, 120])], selfClose := false,
+    body := [.src { name := [80, 101, 114, 115, 111, 110, 46, 106, 97, 118, 97], tag := [115, 111, 117, 114, 99, 101, 102, 105, 108, 101], attrs := [([110, 97, 109, 101], [80, 101, 114, 115, 111, 110, 46, 106, 97, 118, 97])], selfClose := false,
+      body := [.line ⟨3, 0, 2, 0, 0⟩ [108, 105, 110, 101] [([110, 114], [51]), ([109, 105], [48]), ([99, 105], [50]), ([109, 98], [48]), ([99, 98], [48])] true,
+         .line ⟨5, 1, 4, 1, 2⟩ [108, 105, 110, 101] [([110, 114], [53]), ([109, 105], [49]), ([99, 105], [52]), ([109, 98], [49]), ([99, 98], [50])] true,
+         .line ⟨9, 3, 0, 0, 0⟩ [108, 105, 110, 101] [([110, 114], [57]), ([109, 105], [51]), ([99, 105], [48]), ([109, 98], [48]), ([99, 98], [48])] true] },
+       .cls { fq := [111, 114, 103, 47, 101, 120, 47, 80, 101, 114, 115, 111, 110, 36, 65, 103, 101], sourcefile := some [80, 101, 114, 115, 111, 110, 46, 106, 97, 118, 97], tag := [99, 108, 97, 115, 115], selfClose := false,
+      attrs := [([110, 97, 109, 101], [111, 114, 103, 47, 101, 120, 47, 80, 101, 114, 115, 111, 110, 36, 65, 103, 101]), ([115, 111, 117, 114, 99, 101, 102, 105, 108, 101, 110, 97, 109, 101], [80, 101, 114, 115, 111, 110, 46, 106, 97, 118, 97])],
+      body := [.method { name := [60, 105, 110, 105, 116, 62], line := 3, tag := [109, 101, 116, 104, 111, 100], selfClose := false,
+          attrs := [([110, 97, 109, 101], [38, 108, 116, 59, 105, 110, 105, 116, 38, 103, 116, 59]), ([108, 105, 110, 101], [51])],
+          body := [.counter 1 [99, 111, 117, 110, 116, 101, 114] [([116, 121, 112, 101], [77, 69, 84, 72, 79, 68]), ([99, 111, 118, 101, 114, 101, 100], [49])] true] },
+         .method { name := [103, 101, 116], line := 5, tag := [109, 101, 116, 104, 111, 100], selfClose := false,
+          attrs := [([110, 97, 109, 101], [103, 101, 116]), ([108, 105, 110, 101], [53])],
+          body := [.counter 0 [99, 111, 117, 110, 116, 101, 114] [([116, 121, 112, 101], [77, 69, 84, 72, 79, 68]), ([99, 111, 118, 101, 114, 101, 100], [48])] true] }] },
+       .cls { fq := [111, 114, 103, 47, 101, 120, 47, 80, 101, 114, 115, 111, 110], sourcefile := none, tag := [99, 108, 97, 115, 115], selfClose := false,
+      attrs := [([110, 97, 109, 101], [111, 114, 103, 47, 101, 120, 47, 80, 101, 114, 115, 111, 110])],
+      body := [.method { name := [109, 97, 105, 110], line := 9, tag := [109, 101, 116, 104, 111, 100], selfClose := false,
+          attrs := [([110, 97, 109, 101], [109, 97, 105, 110]), ([108, 105, 110, 101], [57])], body := [] }] }] },
+   .pkg { name := [], tag := [112, 97, 99, 107, 97, 103, 101], attrs := [([110, 97, 109, 101], [])], selfClose := false,
+    body := [.src { name := [84, 46, 106, 97, 118, 97], tag := [115, 111, 117, 114, 99, 101, 102, 105, 108, 101], attrs := [([110, 97, 109, 101], [84, 46, 106, 97, 118, 97])], selfClose := false, body := [] }] }]
+
+def exExpected : List (Name × Cov) :=
+  [([111, 114, 103, 47, 101, 120, 47, 80, 101, 114, 115, 111, 110, 46, 106, 97, 118, 97],
+     { lines := [(3, 1), (9, 0)], branches := [(5, [true, true, false])],
+       functions := [([80, 101, 114, 115, 111, 110, 36, 65, 103, 101, 35, 60, 105, 110, 105, 116, 62], ⟨3, true⟩), ([80, 101, 114, 115, 111, 110, 36, 65, 103, 101, 35, 103, 101, 116], ⟨5, false⟩),
+                     ([80, 101, 114, 115, 111, 110, 35, 109, 97, 105, 110], ⟨9, false⟩)] }),
+    ([84, 46, 106, 97, 118, 97], {})]
+
+/-- `<report><package name="p"><class name="p/A"><method name="m" line="1">` and then end of input -/
+def exTruncated : List XmlEvent :=
+  [.start [114, 101, 112, 111, 114, 116] [],
+   .start [112, 97, 99, 107, 97, 103, 101] [([110, 97, 109, 101], [112])],
+   .start [99, 108, 97, 115, 115] [([110, 97, 109, 101], [112, 47, 65])],
+   .start [109, 101, 116, 104, 111, 100] [([110, 97, 109, 101], [109]), ([108, 105, 110, 101], [49])]]
+
+
 end Grcov.Jacoco
